@@ -185,3 +185,93 @@ func VerifC06_RibHistory() {
 		}
 	}
 }
+
+
+// Longer histories as fixed shapes (A register / re-register, U unregister, C face cleanup): three and four
+// operations over nested prefixes with every parameter symbolic; checked after the last operation.
+var verifC06Shapes = []string{"AAA", "AAU", "AAC", "AUA", "AAAU", "AAAC"}
+
+// prefixes of the scripted histories: cuts of one chain of symbolic components (nested prefixes, gaps included);
+// with "siblings" set, the last component may be replaced by a different symbolic byte
+var verifC06Chain enc.Name
+
+func verifC06ChainName(tag string, depth int) enc.Name {
+	if verifC06Chain == nil {
+		for i := 0; i < depth+1; i++ {
+			verifC06Chain = append(verifC06Chain, enc.Component{Typ: enc.TypeGenericNameComponent, Val: verifBytesN("chain", 1)})
+		}
+	}
+	d := verifChoice(tag+"len", depth+1)
+	n := append(enc.Name{}, verifC06Chain[:d]...)
+	if d > 0 && verifParam("siblings", 0) != 0 && verifBool(tag+"sib") {
+		v := verifBytesN(tag+"sibv", 1)
+		verifAssume(v[0] != n[d-1].Val[0])
+		n[d-1] = enc.Component{Typ: enc.TypeGenericNameComponent, Val: v}
+	}
+	return n
+}
+
+func VerifC06_Scripted() {
+	depth := verifParam("sdepth", 3)
+	nshapes := verifParam("shapes", len(verifC06Shapes))
+	shape := verifC06Shapes[verifChoice("shape", nshapes)]
+	label := "C06/tree"
+	if verifParam("bothfibs", 0) == 0 || verifChoice("impl", 2) == 0 {
+		newFibStrategyTableTree()
+	} else {
+		newFibStrategyTableHashTable(uint16(1 + verifChoice("m", 2)))
+		label = "C06/hashtable"
+	}
+	model := &verifRibModel{}
+	origins := []uint64{RouteOriginApp, RouteOriginStatic}
+	nop := 0
+	pickFace := func() uint64 {
+		// a fresh face per operation, or the face of the first operation
+		nop++
+		if nop > 1 && verifBool("sameface") {
+			return 1
+		}
+		return uint64(nop)
+	}
+	pickOrigin := func() uint64 {
+		if verifParam("origins", 1) > 1 {
+			return origins[verifChoice("origin", 2)]
+		}
+		return origins[0]
+	}
+	for _, op := range shape {
+		switch op {
+		case 'A':
+			p := verifC06ChainName("p", depth)
+			r := &Route{FaceID: pickFace(), Origin: pickOrigin(), Cost: verifRange("cost", 0, 1000), Flags: verifRange("flags", 0, 3)}
+			verifNoPanic(label+"/no-panic", func() { Rib.AddEncRoute(p, r) })
+			model.add(p, r.FaceID, r.Origin, r.Cost, r.Flags)
+		case 'U':
+			p := verifC06ChainName("p", depth)
+			face, origin := pickFace(), pickOrigin()
+			verifNoPanic(label+"/no-panic", func() { Rib.RemoveRouteEnc(p, face, origin) })
+			model.remove(p, face, origin)
+		case 'C':
+			face := pickFace()
+			verifNoPanic(label+"/no-panic", func() { Rib.CleanUpFace(face) })
+			model.cleanup(face)
+		}
+	}
+	q := verifC06ChainName("q", depth+1)
+	got := FibStrategyTable.FindNextHopsEnc(q)
+	verifAssert(verifSameHops(got, model.lookup(q)), label+"/lookup-equals-flattening")
+	root := FibStrategyTable.FindNextHopsEnc(enc.Name{})
+	verifAssert(verifSameHops(root, model.lookup(enc.Name{})), label+"/root-untouched")
+	fe := FibStrategyTable.GetAllFIBEntries()
+	ps := model.prefixes()
+	for _, p := range ps {
+		found := false
+		for _, e := range fe {
+			if e.Name().Equal(p) {
+				found = verifSameHops(e.GetNextHops(), model.hops(p))
+			}
+		}
+		verifAssert(found, label+"/listing-has-every-routed-prefix")
+	}
+	verifAssert(len(fe) == len(ps), label+"/no-ghost-entry")
+}
